@@ -6,6 +6,7 @@ explicit copy of the negative-binomial gradient as it was at the pinned commit.
 -/
 import PyttbModel.Lemmas.GcpExpr
 import PyttbModel.Generated.Handles
+set_option linter.unusedSimpArgs false
 namespace Pyttb
 open Handles Expr Filter Topology
 
@@ -50,8 +51,13 @@ def ParamOK : Objective → ℝ → Prop
   | .BETA, b => b ≠ 0 ∧ b ≠ 1
   | _, _ => True
 
-/-- `negative_binomial_grad` as it was at the pinned commit (before the fix 782e982 in
-/repo): `(num_trials + 1) / (1 + model) - data / (model + EPS)`. -/
+/-- The negative-binomial pair as it was at the pinned commit (before the fix 782e982 in
+/repo), written out by hand: loss `(num_trials + data) log(model + 1) - data log(model + EPS)`,
+gradient `(num_trials + 1) / (1 + model) - data / (model + EPS)`. -/
+def negbinLossPinned : Expr :=
+  .sub (.mul (.add .param .data) (.log (.add .var (.const 1)))) (.mul .data (.log (.add .var (.const EPS))))
+
+/-- `negative_binomial_grad` at the pinned commit (explicit copy, not generated). -/
 def negbinGradPinned : Expr :=
   .sub (.div (.add .param (.const 1)) (.add (.const 1) .var)) (.div .data (.add .var (.const EPS)))
 
@@ -60,12 +66,12 @@ def negbinGradPinned : Expr :=
 /-- closed form of the generated Huber loss -/
 theorem huber_closed (x t y : ℝ) :
     huber.evalR x t y = if |x - y| < t then (x - y) ^ 2 else 2 * t * |x - y| - t ^ 2 := by
-  by_cases h : |x - y| < t <;> simp [huber, evalR, h]
+  by_cases h : |x - y| < t <;> simp [huber, evalR, h, abs_sub_comm y x]
 
 /-- closed form of the generated Huber gradient -/
 theorem huber_grad_closed (x t y : ℝ) :
     huber_grad.evalR x t y = if |x - y| < t then -2 * (x - y) else -(2 * t * sgn (x - y)) := by
-  by_cases h : |x - y| < t <;> simp [huber_grad, evalR, h]
+  by_cases h : |x - y| < t <;> simp [huber_grad, evalR, h, abs_sub_comm y x]
 
 /-- Huber, open inner region `|x - m| < t` (by hand: the loss is `(x - m)²` near `m`). -/
 theorem huber_deriv_inside (x t m : ℝ) (h : |x - m| < t) :
